@@ -364,7 +364,11 @@ impl ChessMove {
             }
 
             if !ep && takes {
-                if board.piece_on(m.get_dest()).is_none() {
+                // a pawn changing file onto an empty square captures en passant:
+                // that is a capture with or without the " e.p." suffix
+                let en_passant = moving_piece == Piece::Pawn
+                    && m.get_source().get_file() != m.get_dest().get_file();
+                if board.piece_on(m.get_dest()).is_none() && !en_passant {
                     continue;
                 }
             }
